@@ -82,6 +82,9 @@ ALPHABET = [
     ["--include", "@pulls"], ["--exclude", "@tags.releases"], ["--include", "@mygroup.sub.deep"],
     ["--include", "refs/heads/a+b"], ["--exclude", "/refs/heads/a\\+b|refs/heads/x\\|y/"],
     ["--include", "@proj.rel.v1"], ["--exclude", "@proj.rel"], ["--include", "@deepunion.x"], ["--refgroup", "proj.rel.v2"],
+    # patterns that match no reference at all are still options: they decide the default polarity when they come first
+    ["--include", "//"], ["--exclude", "//"], ["--include-regexp="], ["--exclude-regexp", ""], ["--include", "refs/none/such"],
+    ["--exclude", "/refs/nothing/.*/"],
 ]
 
 _REGEX_ATOMS = ["refs", "heads", "tags", "foo", "main", "v1", "/", "/", ".", ".*", "[a-z]+", "\\d+", "(heads|tags)",
